@@ -101,7 +101,7 @@ MUT["C17"] = [
     dict(id="c17-cons-sign", what="constraint filter keeps violators", path=P_CC, functions=[CC], old="        idx = C <= 0", new="        idx = C >= 0", expect="feasible"),
     dict(id="c17-no-dedupe", what="row de-duplication removed", path=P_CC, functions=[CC],
          old="    _, idx_sort = np.unique(U_new, axis=0, return_index=True)\n    U_new = U_new[np.sort(idx_sort), :]", new="    idx_sort = np.argsort(U_new[:, 0])\n    U_new = U_new[np.sort(idx_sort), :]", expect="pairwise_distinct"),
-    dict(id="c17-clamp-ub-twice", what="projection clamps to ub twice", path=P_CC, functions=[CC], old="        U_new = np.maximum(np.minimum(U, ub), lb)", new="        U_new = np.maximum(np.minimum(U, ub), ub)", expect="in_box"),
+    dict(id="c17-no-upper-clamp", what="projection clamps to the lower bound only", path=P_CC, functions=[CC], old="        U_new = np.maximum(np.minimum(U, ub), lb)", new="        U_new = np.maximum(U, lb)", expect="in_box"),
     dict(id="c17-drop-only-above", what="drop filter ignores the lower bound", path=P_CC, functions=[CC],
          old="        idx = np.any(U > ub, axis=1) | np.any(U < lb, axis=1)", new="        idx = np.any(U > ub, axis=1)", expect="in_box"),
     dict(id="c17-single-row-skip", what="constraint filter skipped for single-row sets", path=P_CC, functions=[CC],
